@@ -288,6 +288,20 @@ fn toy<F: PrimeField>(rng: &mut Rng, out: &mut Out, t: &Toy) {
         for u in &partners_s { ss_ops(&mut c, s, u, true); ss_ops(&mut c, u, s, true); ss_scaled(&mut c, s, &el[2], u); }
     }
     for s in odd.iter().take(40) { for u in odd.iter().take(40) { ss_ops(&mut c, s, u, false); } }
+    // stored forms no constructor call produces directly — last stored coefficient zero, or a zero polynomial
+    // with stored terms — obtained as sums of the above (model = impl only)
+    let mut odd2: Vec<SparsePolynomial<F>> = Vec::new();
+    for s in &odd { for u in odd.iter().chain(sps.iter().take(30)) {
+        if let Ok(r) = std::panic::catch_unwind(std::panic::AssertUnwindSafe(|| s + u)) {
+            if r.to_vec().last().map_or(false, |(_, cf)| cf.is_zero()) && !odd2.contains(&r) && odd2.len() < 60 { odd2.push(r); }
+        }
+    } }
+    for s in &odd2 {
+        s_unary(&mut c, s); s_eval(&mut c, s, &el[2]); s_eval(&mut c, s, &el[0]); s_scale(&mut c, s, &el[2]); s_scale(&mut c, s, &el[0]);
+        for a in &partners_d { ds_ops(&mut c, a, s); ds_div(&mut c, a, s); }
+        for u in &partners_s { ss_ops(&mut c, s, u, true); ss_ops(&mut c, u, s, true); ss_scaled(&mut c, s, &el[2], u); }
+        if let Some(d) = Dom::<F>::new(2) { dom_sparse(&mut c, s, &d); }
+    }
     // domains (every subgroup size the field has) and every coset of them
     let doms = domains(&[1, 2, 4, 8], &nz[..nz.len().min(t.max_offsets)]);
     for d in &doms {
